@@ -45,8 +45,21 @@ def int_cases(rng, extra_random):
     return out
 
 
-def program(t, text):
-    return "fn main() -> u8\n{\n\tvar x: %s = %s;\n\tprint!(x, \"\\n\");\n\treturn: 0\n}\n" % (t, text)
+POSITIONS = ["init", "return", "argument", "assign", "element", "condition", "member", "constant"]
+
+
+def program(t, text, pos="init"):
+    """the literal in one of the places a literal can stand; the program prints its value
+    (position `condition`: 1 iff the value differs from zero)"""
+    head, pr = "fn main() -> u8\n{\n", "\tprint!(x, \"\\n\");\n\treturn: 0\n}\n"
+    if pos == "return": return "fn f() -> %s\n{\n\treturn: %s\n}\n" % (t, text) + head + "\tvar x: %s = f();\n" % t + pr
+    if pos == "argument": return "fn id(a: %s) -> %s\n{\n\treturn: a\n}\n" % (t, t) + head + "\tvar x: %s = id(%s);\n" % (t, text) + pr
+    if pos == "assign": return head + "\tvar x: %s = 0;\n\tx = %s;\n" % (t, text) + pr
+    if pos == "element": return head + "\tvar a: [2]%s = [0, %s];\n\tvar x: %s = a[1];\n" % (t, text, t) + pr
+    if pos == "condition": return head + "\tvar z: %s = 0;\n\tvar x: u8 = 0;\n\tif z != %s\n\t{\n\t\tx = 1;\n\t}\n" % (t, text) + pr
+    if pos == "member": return "struct S\n{\n\tm: %s,\n}\n" % t + head + "\tvar s = S { m: %s };\n\tvar x: %s = s.m;\n" % (text, t) + pr
+    if pos == "constant": return "const K: %s = %s;\n" % (t, text) + head + "\tvar x: %s = K;\n" % t + pr
+    return head + "\tvar x: %s = %s;\n" % (t, text) + pr
 
 
 ESCAPES = {"n": 10, "r": 13, "t": 9, "\\": 92, "'": 39, '"': 34, "0": 0}
@@ -101,7 +114,8 @@ def run(tier):
         return None
     ck.witness_runner = witness
     cases = int_cases(rng, 2 if tier == "quick" else 40)
-    srcs = [("i%d" % i, program(c["t"], c["text"])) for i, c in enumerate(cases)]
+    for i, c in enumerate(cases): c["pos"] = POSITIONS[(i // 3) % len(POSITIONS)] if i % 3 == 2 else "init"
+    srcs = [("i%d" % i, program(c["t"], c["text"], c["pos"])) for i, c in enumerate(cases)]
     impl = C.run_harness("exec", srcs, ck.work + "/int", timeout=1800)
     items = [("literal", "i%d" % i, "(%d %s %d %s %s)" % (c["neg"], c["kind"], c["m"], c["t"] if c["kind"] == "suffixed" else "-", c["t"]))
              for i, c in enumerate(cases) if c["m"] < (1 << 128)]
@@ -112,7 +126,7 @@ def run(tier):
         f = impl.get(cid, ["missing"])
         t, v, m = c["t"], c["v"], c["m"]
         src = srcs[i][1]
-        desc = "literal `%s` as %s" % (c["text"], t)
+        desc = "literal `%s` as %s (%s)" % (c["text"], t, c["pos"])
         if not (f[0].startswith("ok") or f[0].startswith("err codes=")):
             ck.violation(C.failure_key(f[0]), "compiler failed on %s: %s" % (desc, f[0][:160]), src); continue
         distinct.add((t, c["text"]))
@@ -131,7 +145,8 @@ def run(tier):
         printed = out.replace("\\n", "")
         in_range = tmin(t) <= v <= tmax(t)
         stats["in-range" if in_range else "out-of-range"] += 1
-        if printed != str(wrap(t, v)):
+        stats["position:" + c["pos"]] += 1
+        if printed != (str(wrap(t, v)) if c["pos"] != "condition" else ("1" if wrap(t, v) != 0 else "0")):
             mism += 1; ck.violation("wrong-value", "%s has run-time value %s, expected %s" % (desc, printed, wrap(t, v)), src); continue
         if in_range and lint:
             if c["neg"] and c["kind"] != "naked" and m == tmax(t) + 1 and not (c["kind"] == "suffixed" and c["base"] == 10 and t in SIGNED):
@@ -143,7 +158,7 @@ def run(tier):
             mism += 1; ck.violation("silent-truncation", "%s is out of range, evaluates to %s, and no L1142 is raised" % (desc, printed), src); continue
         mm = model.get(cid, "")
         exp = "lint=%s value=%s" % ("true" if lint else "false", printed)
-        if mm != exp:
+        if mm != exp and c["pos"] != "condition":
             mism += 1; ck.violation("tie-broken:literal-model", "model says '%s', implementation '%s' for %s" % (mm, exp, desc), src)
     ck.log("integers: %d literals %s, %d problems" % (len(cases), dict(stats), mism))
     # characters and strings
@@ -186,7 +201,7 @@ def run(tier):
         ck.violation("tie-broken:proof", "Props/C09.v no longer checks", getattr(ck, "proof_output", "")[-2000:])
     ck.coverage.update(
         evaluations=len(cases) + len(ssrcs) + len(bsrcs), distinct_nontrivial=len(distinct),
-        rule="integer matrix: 11 integer types x boundary values (0, 1, max, max+1, min, min-1, 2^32, 2^64, 2^127, 2^128-1, 2^128, ...) plus random values x {decimal, hex upper/lower, binary} x {underscores} x {suffix} x {unary minus}: run-time value must be the value modulo 2^N, L1142 iff out of range, E140 beyond 128 bits; every byte as \\xHH in a char literal, all printable characters, all simple escapes; random strings with simple, \\x, \\u{} escapes, raw multi-byte characters and adjacent-literal concatenation (length and every byte printed); malformed forms with their documented codes; distinct = distinct (type, spelling)",
+        rule="integer matrix: 11 integer types x boundary values (0, 1, max, max+1, min, min-1, 2^32, 2^64, 2^127, 2^128-1, 2^128, ...) plus random values x {decimal, hex upper/lower, binary} x {underscores} x {suffix} x {unary minus}, in every place a literal can stand (initialiser, return value, call argument, assignment, array element, if condition, structure member, constant): run-time value must be the value modulo 2^N, L1142 iff out of range, E140 beyond 128 bits; every byte as \\xHH in a char literal, all printable characters, all simple escapes; random strings with simple, \\x, \\u{} escapes, raw multi-byte characters and adjacent-literal concatenation (length and every byte printed); malformed forms with their documented codes; distinct = distinct (type, spelling)",
         integer_stats=dict(stats), integer_problems=mism, string_problems=smism,
         samples=[dict(literal=cases[5]["text"], type=cases[5]["t"], result=impl.get("i5", ["?"])[:2]), dict(source=ssrcs[-1][1][:300])])
     ck.assumptions += ["the spelling -> token step (lexing) is proved on the lexer model (C14) and exercised here end to end",
